@@ -62,7 +62,9 @@ type Dump struct {
 	Recursive           bool     `json:"recursive"`
 	GeneratorParameters []string `json:"generator_parameters"`
 	PluginParameters    []string `json:"plugin_parameters"`
-	Request             []byte   `json:"request"` // the decoded request, marshalled again
+	// the decoded AST in an encoding that shares nothing with the thrift codec
+	// (a second pass through the codec could undo what the first one did wrong)
+	AST json.RawMessage `json:"ast"`
 }
 
 const trailer = "\xffTHRIFTGO_TRAILER_V1\xff"
@@ -100,7 +102,10 @@ func main() {
 	} else {
 		d.Version, d.Language, d.OutputPath, d.Recursive = req.Version, req.Language, req.OutputPath, req.Recursive
 		d.GeneratorParameters, d.PluginParameters = req.GeneratorParameters, req.PluginParameters
-		d.Request, _ = plugin.MarshalRequest(req)
+		if d.AST, err = json.Marshal(req.AST); err != nil {
+			d.DecodeError = "AST not representable in JSON: " + err.Error()
+			d.AST = nil
+		}
 	}
 	b, _ := json.Marshal(d)
 	if _, err := f.Write(b); err != nil {
